@@ -1,4 +1,5 @@
 import OpnVerif.Model.Synth
+import OpnVerif.Spec.Inv
 import Driver.Util
 import Driver.BankMap
 namespace Driver.Synth
@@ -77,7 +78,8 @@ def finish (s0 : S) (r : Except Fault (String × S)) : S × String :=
   | .ok (ret, s) =>
     let leftover := if s.taps.isEmpty then "" else s!" TAPS-LEFT={s.taps.length}"
     let errs := if s.tapErr.isEmpty then "" else " TAPERR=" ++ "|".intercalate s.tapErr
-    ({ s with taps := [], tapErr := [] }, s!"ret={ret} {snapshot s}{leftover}{errs}")
+    let inv := if invB s then "" else " INV-VIOLATED:" ++ invReport s
+    ({ s with taps := [], tapErr := [] }, s!"ret={ret} {snapshot s}{leftover}{errs}{inv}")
 
 def insOfFields (no vo : Int) (pk fl fb lf : Nat) (ops : List Nat) (don doff : Nat) : Ins :=
   { op := { ops := ops, fbalg := fb, lfosens := lf, noteOffset := no }, drumTone := pk, flags := fl, keyOnMs := don, keyOffMs := doff, velOffset := vo }
@@ -185,6 +187,27 @@ def step (s : S) (ws0 : List String) : S × String :=
       let s' := if m == 0 then { s' with volumeScale := s'.bankVolumeModel } else { s' with volumeScale := volumeScaleOfModel m s'.volumeScale }
       finish s (.ok ("-", s'))
     | none => (s, "bad-op")
+  | ["chips", v] =>
+    match v.toInt? with
+    | some n =>
+      if n < 1 || n > 100 then finish s (.ok ("-1", s))
+      else finish s ((runM s (do
+        modify fun st => { st with setup := { st.setup with numChips := n.toNat }, numChips := n.toNat }
+        partialReset)).map fun (_, s') => ("0", s'))
+    | none => (s, "bad-op")
+  | ["emu", v] =>
+    match v.toInt? with
+    | some e =>
+      -- every emulator id 0..8 is compiled in by default (Gen.emulatorMask); 7 is the VGM dumper, never used by the tests
+      if e < 0 || e > 8 then finish s (.ok ("-1", s))
+      else finish s ((runM s partialReset).map fun (_, s') => ("0", s'))
+    | none => (s, "bad-op")
+  | ["reset"] => unit (do partialReset; resetMIDI)
+  | ["chiptype", v] =>
+    match v.toInt? with
+    | some t => unit (do modify (fun st => { st with setup := { st.setup with chipType := t } }); applySetup)
+    | none => (s, "bad-op")
+  | ["runatpcm", _] => unit partialReset
   | ["devid", v] =>
     match v.toNat? with
     | some d => if d > 15 then finish s (.ok ("-1", s)) else finish s (.ok ("0", { s with devId := d }))
